@@ -1,9 +1,11 @@
 """Build-time tool: markdown table of the seeded changes under seeded/ (for DESIGN.md §9.5)."""
-import glob, json, os, re
+import glob, io, json, os, re, sys
 V = os.path.dirname(os.path.dirname(os.path.abspath(__file__)))
-print('| seed | property | change (file: what) | needs, to manifest | caught by (first lines of `./check` on the changed tree) |')
-print('|---|---|---|---|---|')
-for d in sorted(glob.glob(os.path.join(V, 'seeded', '*'))):
+_out = io.StringIO()
+_p = lambda *a: print(*a, file=_out)  # noqa: E731
+_p('| seed | property | change (file: what) | needs, to manifest | caught by (first lines of `./check` on the changed tree) |')
+_p('|---|---|---|---|---|')
+for d in sorted(glob.glob(os.path.join(V, 'seeded', '*', ''))):
     m = json.load(open(os.path.join(d, 'meta.json')))
     pd = open(os.path.join(d, 'patch.diff')).read()
     files = sorted(set(re.findall(r'^\+\+\+ b/(\S+)', pd, re.M)))
@@ -15,5 +17,13 @@ for d in sorted(glob.glob(os.path.join(V, 'seeded', '*'))):
         if k not in keys:
             keys.append(k)
     det = ('**not detected**' if not m.get('detected') else '; '.join('`%s`' % k[:90] for k in keys[:3]) + (' …' if len(keys) > 3 else ''))
-    print('| %s | %s | %s: %s | %s | %s |' % (os.path.basename(d), m['property'], ', '.join(f.replace('src/vtlengine/', '') for f in files),
+    _p('| %s | %s | %s: %s | %s | %s |' % (os.path.basename(d.rstrip('/')), m['property'], ', '.join(f.replace('src/vtlengine/', '') for f in files),
                                         summ.get('change', ''), summ.get('needs', ''), det))
+
+if '--update' in sys.argv:
+    dp = os.path.join(V, 'DESIGN.md')
+    txt = open(dp).read()
+    a, b = txt.index('<!-- SEEDTABLE-BEGIN -->'), txt.index('<!-- SEEDTABLE-END -->')
+    open(dp, 'w').write(txt[:a] + '<!-- SEEDTABLE-BEGIN -->\n' + _out.getvalue() + txt[b:])
+else:
+    sys.stdout.write(_out.getvalue())
